@@ -8,6 +8,8 @@ func init() {
 			{Pkg: "ads", Harness: "set", Weight: 2, Native: true},
 			{Pkg: "ads", Harness: "map", Config: "varkeys", Weight: 2, Note: "keys serialize to 0..2 bytes: prefixes of one another and the empty key"},
 			{Pkg: "ads", Harness: "set", Config: "varkeys", Weight: 1},
+			{Pkg: "ads", Harness: "concmap", Weight: 2, Note: "2-3 concurrent callers; the history must be linearizable w.r.t. the map model, then the sequential audit (contents, Size, content-only Root, Commit+reopen)"},
+			{Pkg: "ads", Harness: "concset", Weight: 1},
 		},
 		QuickS: 20, ThoroughS: 600,
 		Rule:   "each run draws 2-4 keys out of a fixed universe (5 keys for the map, 8 for the set; sha256 paths in two clusters sharing >=14 / 5-9 / 1-3 / 0 leading bits), an operation mix and a history of 3-12 operations (Set/Add incl. overwrite and empty value, Delete incl. absent keys, Get, Has, Size, Stream, Root, Commit, Commit+reopen, reopen without Commit) and, for every twin comparison, an insertion order and a detour (overwrite, delete-and-reinsert, foreign key inserted and removed, Commit half way); distinct = distinct hash of (configuration, event log); non-trivial = at least two recorded decisions. C09 has no concurrency clause: one client task, the schedule is not a dimension here",
